@@ -421,6 +421,16 @@ class Interp:
         m = self.world.binop_model(sym, a, b, self)
         if m is not NotImplemented:
             return m
+        if isinstance(a, S.SSet) and isinstance(b, S.SSet) and \
+                a.elem is b.elem:
+            # subset order on characteristic arrays
+            v = z3.Const(S.fresh_name('e'), a.elem.sort())
+            x, y = z3.Select(a.arr, v), z3.Select(b.arr, v)
+            sub = z3.ForAll([v], z3.Implies(x, y))
+            sup = z3.ForAll([v], z3.Implies(y, x))
+            return SBool({'<=': sub, '>=': sup,
+                          '<': z3.And(sub, a.arr != b.arr),
+                          '>': z3.And(sup, a.arr != b.arr)}[sym])
         return SBool(S.compare(sym, a, b))
 
     def identical(self, a, b):
@@ -534,6 +544,15 @@ class Interp:
         m = self.world.binop_model(op, a, b, self)
         if m is not NotImplemented:
             return m
+        if isinstance(a, S.SSet) and isinstance(b, S.SSet) and \
+                a.elem is b.elem and op in ('Sub', 'BitOr', 'BitAnd',
+                                            'BitXor'):
+            # set algebra on characteristic arrays (a fresh set)
+            v = z3.Const(S.fresh_name('e'), a.elem.sort())
+            x, y = z3.Select(a.arr, v), z3.Select(b.arr, v)
+            body = {'Sub': z3.And(x, z3.Not(y)), 'BitOr': z3.Or(x, y),
+                    'BitAnd': z3.And(x, y), 'BitXor': z3.Xor(x, y)}[op]
+            return S.SSet(z3.Lambda([v], body), a.elem)
         ta, tb = S.type_of(a), S.type_of(b)
         num = (TInt, TBool, TReal)
         if isinstance(a, MList):
